@@ -1,4 +1,60 @@
-(* C01 — placeholder until the invariant / refinement theorems are added (see below). *)
+(* C01 — location transparency.
+
+   FULL statement (what the property says): for every program of native operations the joint quantum state of all held
+   qubits equals the state of an ideal single register, and every reported outcome has non-zero probability there.
+
+   What is PROVED here (placement layer, hence the suffix _partial): over Model V, in every reachable state, for every
+   placement history and all seven merge cases, each native operation issues its engine call on exactly the register
+   position whose recorded identity is the physical qubit the handle denotes — control and target in that order —
+   after merges under which the bookkeeping invariant (Properties/C02.v) and the identity records are preserved;
+   sending hands over the same physical qubit; physical-qubit identities are never duplicated.
+   What is MISSING for the full statement: (i) the engine contract "absorb = tensor product with the absorbed
+   positions offset, remove = deletion with shift" (Properties/C15.v, stabilizer backend) and the group-level
+   gate/measurement theorems (C13/C14) are not yet composed with this layer into a single equation
+   "joint stabilizer group = ideal group"; (ii) Hilbert space is not formalised.  The composition is exercised on every
+   run by the state-vector oracle of harness/net_run.py (joint state compared after EVERY operation). *)
 From Coq Require Import List Bool Arith.
-From SQ Require Import Base.ListUtil Net.Model Net.Refusal Net.Capacity Net.Handles.
+From SQ Require Import Base.ListUtil Stab.Tableau Net.Model Net.Refusal Net.Handles Net.Inv Net.InvStep Net.Bookkeeping Net.Placement.
 Import ListNotations.
+
+Theorem C01_single_qubit_gate_hits_denoted_qubit_partial : forall s h g gg vi q,
+  reachable s -> find_handle s h = Some (vi, q) -> gate1_of g = Some gg ->
+  exists x r, In r (regs (nth_node s (v_simNode q))) /\ s_pos x < r_n r /\
+              nth (s_pos x) (r_ids r) 0 = v_qid q /\
+              step s (OGate1 h g) =
+              (update_reg_at s (v_simNode q) (reg_with_tab r (r_n r) (tab_gate1 gg (r_n r) (s_pos x) (r_tab r))), OkNone).
+Proof. exact gate1_hits_denoted_qubit. Qed.
+Print Assumptions C01_single_qubit_gate_hits_denoted_qubit_partial.
+
+Theorem C01_measurement_hits_denoted_qubit_partial : forall s h ip c vi q,
+  reachable s -> find_handle s h = Some (vi, q) ->
+  exists x r, In r (regs (nth_node s (v_simNode q))) /\ s_pos x < r_n r /\
+              nth (s_pos x) (r_ids r) 0 = v_qid q /\
+              snd (step s (OMeas h ip c)) =
+              Ok (if fst (fst (measure (r_n r) (s_pos x) true c (r_tab r))) then 1 else 0).
+Proof. exact measure_hits_denoted_qubit. Qed.
+Print Assumptions C01_measurement_hits_denoted_qubit_partial.
+
+(* all seven placement cases: after the merges (state sm, invariant intact) the gate is applied in ONE register at the
+   positions carrying the control's and the target's identities, in that order *)
+Theorem C01_two_qubit_gate_hits_denoted_qubits_partial : forall s h1 h2 g vi q1 q2,
+  reachable s -> find_handle s h1 = Some (vi, q1) -> find_handle s h2 = Some (vi, q2) -> h1 <> h2 ->
+  exists sm ni k p1 p2 r,
+    ginv sm /\
+    step s (OGate2 h1 h2 g) = (apply_gate2_at sm ni k g p1 p2, OkNone) /\
+    In r (regs (nth_node sm ni)) /\ r_num r = k /\ p1 < r_n r /\ p2 < r_n r /\ p1 <> p2 /\
+    nth p1 (r_ids r) 0 = v_qid q1 /\ nth p2 (r_ids r) 0 = v_qid q2.
+Proof. exact gate2_hits_denoted_qubits. Qed.
+Print Assumptions C01_two_qubit_gate_hits_denoted_qubits_partial.
+
+Theorem C01_send_moves_same_physical_qubit_partial : forall s h t v vi q,
+  reachable s -> find_handle s h = Some (vi, q) -> snd (step s (OSend h t)) = Ok v ->
+  exists q', In q' (virt (nth_node (fst (step s (OSend h t))) t)) /\ v_num q' = v /\
+             v_qid q' = v_qid q /\ v_simNode q' = v_simNode q /\ v_simNum q' = v_simNum q /\ v_hid q' = next_hid s.
+Proof. exact send_moves_same_qubit. Qed.
+Print Assumptions C01_send_moves_same_physical_qubit_partial.
+
+Theorem C01_physical_qubit_held_once_partial : forall s i j q q',
+  reachable s -> In q (virt (nth_node s i)) -> In q' (virt (nth_node s j)) -> v_qid q = v_qid q' -> i = j /\ q = q'.
+Proof. exact qid_identifies_held_qubit. Qed.
+Print Assumptions C01_physical_qubit_held_once_partial.
